@@ -64,6 +64,76 @@ ASSERTIONS = ["bm25:defaultParams", "bm25:params-literal", "constants:typecheck"
     "recovery-order", "cli-recovery-truncated", "cli-recovery-filtered", "FilterResults-shape", "config-max-results", "validate-limit")]
 ASSERTIONS += nlpboosts.ASSERTIONS  # the NLP layer of the search model is modelled too (Model/Boosts.lean over Model/Nlp.lean)
 
+# ---- legacy entry points with the scorer modelled (Props/C01b.lean; correspondence domain legacy2) ----
+THEOREMS += ["Wtf.C01." + t for t in (
+    "legacy_literals", "legacy_limits_in_force", "legacy_score_nonneg", "legacy_score_parts_nonneg", "legacy_score_can_be_negative",
+    "legacy_pipeline_modelled", "search_with_options", "combine_results", "combine_exact_first", "search_with_fuzzy",
+    "search_with_nlp_off", "search_with_nlp_shared_partial", "tfidf_model_rank_ok", "search_with_nlp_temporary_partial",
+    "search_with_nlp_duplicate", "suggestions", "suggestion_words_deterministic")]
+
+LEGACY2_SHAPES = ("SearchWithOptions", "SearchWithPipelineOptions", "sortAndLimitResults", "isPipelineCommand", "db.calculateCommandScore",
+                  "calculateWordScore", "calculateCommandScore", "calculateDomainScore", "calculateKeywordScore", "calculateDescriptionScore",
+                  "calculateTagScore", "calculateScore", "finiteScore", "isDomainSpecificMatch", "getCategoryRelevanceBoost", "SearchWithFuzzy",
+                  "limitResults", "performFuzzySearch", "combineAndDeduplicateResults", "GetSuggestions", "isCommonWord", "SearchWithNLP",
+                  "isCrossPlatformTool")
+LEGACY2_VALUES = ("crossPlatformPenalty", "cmdExact", "cmdPrefix", "cmdWord", "cmdContains", "domainScore", "keywordExact", "keywordPartial",
+                  "descWord", "descPartial", "tagExact", "tagPartial", "completenessBase", "completenessWeight", "directThreshold", "directBonus",
+                  "commandThreshold", "commandBonus", "nicheBase", "nicheFactor", "categoryInit", "goodExactThreshold", "fuzzyBaseA", "fuzzyBaseB",
+                  "fuzzyDiscount", "similarityScale", "fallbackPriority")
+LEGACY2_HELPERS = ("getCompressionBoost", "getZipBoost", "getTarBoost", "getDirectoryBoost", "getCreateBoost", "getNewBoost", "getSearchBoost",
+                   "getDownloadBoost")
+LEGACY2_ASSERTIONS = (["legacyscore:" + s for s in ("constants", "parse", "category-switch:func", "category-switch", "tfidf-search-tail",
+                                                     "domain-table", "common-words", "trim-cutsets")]
+                      + ["legacyscore:shape:" + s for s in LEGACY2_SHAPES] + ["legacyscore:value:" + s for s in LEGACY2_VALUES]
+                      + ["legacyscore:category-helper:" + s for s in LEGACY2_HELPERS])
+ASSERTIONS += LEGACY2_ASSERTIONS
+PROP["level_text"] += (" Props/C01b.lean: with the legacy scorer calculateScore MODELLED (every summand, the category rule table, bonuses, context / niche "
+                       "boosts, finiteScore) the five clauses plus strict positivity of every returned score for SearchWithPipelineOptions and "
+                       "SearchWithOptions (no hypothesis: the `score > 0` admission test), the five clauses for combineAndDeduplicateResults and for "
+                       "SearchWithFuzzy on its three exits, for SearchWithNLP on the shared-searcher branch (partial; the temporary-searcher branch "
+                       "returns an entry twice: witness theorem search_with_nlp_duplicate — that entry point is outside the property's scope), and for "
+                       "GetSuggestions (at most max, candidate list sorted / duplicate-free / independent of map order); calculateScore >= 0 exactly when "
+                       "the context boosts are >= 0 (negative witness proved). Bit-level correspondence of the modelled scorer and of all five entry "
+                       "points in domain legacy2, incl. an overflow stream (category product beyond the float range, saturated by finiteScore).")
+PROP["level_note"] += (" Legacy entry points: literals, tables and the category helper functions are regenerated from search.go on every run; the control "
+                       "flow of 23 functions is pinned by whole-body shape assertions (legacyscore:shape:*). SearchWithOptions / SearchWithFuzzy / "
+                       "SearchWithNLP are exported but unused by CLI and cache layer: known deviations there (duplicate on a database value without "
+                       "TF-IDF searcher; Platforms / NoCrossPlatform / AllPlatforms / PipelineOnly ignored) are counted under out-of-scope:* tags, not reported.")
+PROP["rule"] += ("; legacy2 stream: databases of 0-22 (thorough: -60) entries drawn from a pool aimed at every branch of the legacy scorer (exact / prefix / "
+                 "word / substring command matches, domain table, every category helper, keyword / tag exact vs partial, niche), 2-4 queries each "
+                 "(category and domain words, re-cased, Unicode white space, non-ASCII, invalid UTF-8, empty, long repetitions), context boosts present / "
+                 "absent / zero / negative / 1e6, limits incl. 2^62+1 and MaxInt64, each request through calculateScore, its parts, "
+                 "SearchWithPipelineOptions, SearchWithOptions, performFuzzySearch, SearchWithFuzzy, SearchWithNLP with and without shared searcher, "
+                 "combineAndDeduplicateResults on arbitrary lists, GetSuggestions; coverage obligation coverage:legacy2-branches")
+PROP["assumptions"] += ["finiteScore keeps non-negative scores non-negative (FinOK; true of the IEEE function)",
+                        "SearchWithNLP shared branch: TF-IDF ranking duplicate-free, best first, non-negative (RankOK; PROVED for the model of the searcher)",
+                        "GetSuggestions duplicate-freeness: no candidate word contains a space before the NUL replacement (SpaceFree; monitored: oracle-suggestion-word-with-space)"]
+
+
+def legacy2_stages(ctx, quick, hit_props=None):
+    """SearchWithPipelineOptions / SearchWithOptions / SearchWithFuzzy / SearchWithNLP / GetSuggestions and the legacy scorer piece by
+    piece against Model/LegacyScore.lean + Model/LegacyEntry.lean; `overflow`: hundreds of repetitions of a category word."""
+    ctx.correspond("legacy2", 400 if quick else 8000, nontrivial=nontrivial, shrink=False, seed_offset=21, hit_props=hit_props)
+    ctx.correspond("legacy2", 30 if quick else 400, name="legacy2-overflow", args={"stream": "overflow"}, nontrivial=nontrivial,
+                   shrink=False, seed_offset=23, hit_props=hit_props)
+    # every branch of the scorer / entry points was reached (value-independent: distinct values per summand, named branches)
+    dist = ctx.cov["distribution"]
+    def distinct(prefix):
+        return len([k for k, v in dist.items() if k.startswith("legacy2.legacy2." + prefix + ":") and v > 0])
+    need_distinct = {"cmd": 5, "domain": 2, "keyword": 3, "desc": 3, "tag": 3, "category": 8}
+    need_tags = ["word-boost-absent", "word-boost-positive", "word-boost-zero", "word-boost-negative", "word-too-short",
+                 "niche-boost-present", "niche-boost-absent", "niche-boost-negative", "completeness-bonus", "bonus-direct", "bonus-command",
+                 "bonus-none", "score-negative", "score-zero", "score-positive", "platform-excluded", "platform-cross-platform-tool",
+                 "platform-cross-platform-tag", "platform-declares-platform-in-force", "platform-no-platform-declared", "query-no-words",
+                 "query-upper-case", "query-non-ascii", "query-invalid-utf8", "swf-good-exact", "swf-combined", "swf-exact-only",
+                 "swf-typo-result-returned", "swn-nlp-off", "swn-shared-searcher", "swn-temporary-searcher", "combine-dropped-duplicates",
+                 "sug-nonempty", "pfz-nonempty"]
+    missing = ["distinct %s values %d < %d" % (k, distinct(k), n) for k, n in need_distinct.items() if distinct(k) < n]
+    missing += [t for t in need_tags if dist.get("legacy2.legacy2." + t, 0) == 0]
+    if dist.get("legacy2-overflow.legacy2.score-saturated", 0) == 0:
+        missing.append("overflow stream never saturated a score")
+    ctx.oblige("coverage:legacy2-branches", "coverage", not missing, "all scorer / entry-point branches reached" if not missing else "not reached: " + ", ".join(missing))
+
 
 def nontrivial(tags, ops, impl):
     return tags.get("nonempty", 0) > 0
@@ -98,7 +168,7 @@ def shipped(ctx, n):
 
 def run(ctx):
     ctx.stage_xlate(required_assertions=ASSERTIONS)
-    ctx.stage_prove(THEOREMS)
+    ctx.stage_prove(THEOREMS, extra_targets=["WtfModel.Props.C01b"])
     if not ctx.stage_build():
         return
     quick = ctx.tier == "quick"
@@ -115,6 +185,7 @@ def run(ctx):
         os.environ["WTF_BIN"] = wtf
         ctx.correspond("legacy", 40 if quick else 1500, name="legacy-cli", args={"stream": "cli"}, nontrivial=nontrivial, shrink=False, seed_offset=9)
     shipped(ctx, 40 if quick else 1500)
+    legacy2_stages(ctx, quick)
 
 
 def replay(ctx, rep):
